@@ -1,8 +1,8 @@
 (** C04 — text assigned is the text read back, with only the documented translations.
     Statements over model/Text.v; proofs in proofs/Text_proofs.v. *)
 From V.lib Require Import Prelude.
-From V.model Require Import Text.
-From V.proofs Require Import Text_proofs.
+From V.model Require Import Text Escape TextRun.
+From V.proofs Require Import Text_proofs Escape_proofs.
 
 (** The translations are the documented ones, character by character:
     frame / cell: TAB, LF, VT stay, any other C0 control becomes its escape;
@@ -152,6 +152,26 @@ Theorem C04_reopen : forall (X : Type) (ser : body -> X) (reparse : X -> body),
   forall n s b, get_frame (cycles X ser reparse n (set_frame s b)) = tr_frame s.
 Proof. exact reopen_readback. Qed.
 Print Assumptions C04_reopen.
+
+(** the leaf level of that hypothesis, discharged against the parser model of C05 (model/Escape.v, which contains
+    libxml2's blank-text removal): the text of an a:t, written with libxml2's text escaping (amp, lt, gt, and CR as
+    a character reference -- tied to the real serialiser by the correspondence, op lx) is read back EXACTLY, for
+    every string of XML characters: leading / trailing / only white space, CR, CR LF, TAB included *)
+Theorem C04_reopen_text_leaf : forall s, xml_str s = true ->
+  lex_text (lxml_text_escape s) = OneText s.
+Proof. exact (fun s H => text_safe_r s false false false H). Qed.
+Print Assumptions C04_reopen_text_leaf.
+
+(** what a run setter stores is such a string whenever lxml accepts it at all *)
+Theorem C04_reopen_run_text : forall s, xml_str (tr_run s) = true ->
+  lex_text (lxml_text_escape (tr_run s)) = OneText (tr_run s).
+Proof. exact (fun s H => text_safe_r (tr_run s) false false false H). Qed.
+Print Assumptions C04_reopen_run_text.
+
+Example C04_ex_reopen_leaf :
+  lex_text (lxml_text_escape [32; 13; 10; 9; 60; 38; 62; 32]%N) = OneText [32; 13; 10; 9; 60; 38; 62; 32]%N /\
+  xml_str (tr_run [32; 13; 7; 11]%N) = true.
+Proof. vm_compute. split; reflexivity. Qed.
 
 (** ---- non-vacuity ---- *)
 (* frame: a, LF, VT, b, space, BEL onto a body with two paragraphs and properties *)
